@@ -20,9 +20,15 @@ use std::time::{Duration, Instant};
 pub struct Case { pub lens: Vec<usize>, pub cuts: Vec<usize>, pub gap: u64, pub end: String, pub endpack: bool, pub inputs: bool }
 
 /// PDU i: a fast-path bitmap update with one raw 32 bpp rectangle of `n` pixels in a row, dest_left = i
+/// `n` = pixels + 100 * variant: variant 1 puts a zero-length update (synchronize) in front of
+/// the bitmap update inside the same PDU, variant 2 uses the two-byte length form although the PDU is small
 fn pdu(i: usize, n: usize) -> Vec<u8> {
+    let (variant, n) = (n / 100, (n % 100).max(1));
     let r = Rect { l: i as u16, t: 0, r: (i + n - 1) as u16, b: 0, w: n as u16, h: 1, bpp: 32, flags: 0, data: vec![i as u8; 4 * n] };
-    refsrv::fast_path_frame(0, &refsrv::fp_bitmap_update(&[r]))
+    let mut payload = vec![];
+    if variant == 1 { payload.extend(refsrv::fp_update(3, &[])); }
+    payload.extend(refsrv::fp_bitmap_update(&[r]));
+    if variant == 2 { let t = payload.len() + 3; let mut v = vec![0u8, 0x80 | (t >> 8) as u8, t as u8]; v.extend(payload); v } else { refsrv::fast_path_frame(0, &payload) }
 }
 fn end_bytes(mode: &str) -> Vec<u8> {
     match mode {
@@ -33,7 +39,7 @@ fn end_bytes(mode: &str) -> Vec<u8> {
     }
 }
 
-pub struct Outcome { pub silent: Vec<u16>, pub fin: Vec<u16>, pub exited: bool, pub status: String, pub lens: Vec<usize> }
+pub struct Outcome { pub silent: Vec<u16>, pub fin: Vec<u16>, pub exited: bool, pub status: String, pub lens: Vec<usize>, pub inputs_done: usize, pub inputs_asked: bool }
 
 pub fn run(c: &Case) -> Outcome {
     let pdus: Vec<Vec<u8>> = c.lens.iter().enumerate().map(|(i, n)| pdu(i, *n)).collect();
@@ -58,7 +64,7 @@ pub fn run(c: &Case) -> Outcome {
     let fd = a.as_raw_fd() as usize;
     let rawlog = Arc::new(Mutex::new(vec![]));
     let th = std::thread::spawn(move || conn::serve(b, srv, vec![0; 16], rawlog));
-    let mut out = Outcome { silent: vec![], fin: vec![], exited: false, status: "ok".into(), lens };
+    let mut out = Outcome { silent: vec![], fin: vec![], exited: false, status: "ok".into(), lens, inputs_done: 0, inputs_asked: c.inputs };
     let mut con = Connector::new().screen(cfg.w, cfg.h).credentials(cfg.dom.clone(), cfg.user.clone(), cfg.pw.clone()).use_nla(false).layout(conn::layout_of(cfg.lay)).name(cfg.name.clone());
     let mut client = match con.connect(a) { Ok(c) => c, Err(e) => { out.status = format!("E@connect:{:?}", e); let _ = th.join(); return out; } };
     for i in 0..5 { if let Err(e) = client.read(|_| {}) { out.status = format!("E@read{}:{:?}", i, e); drop(client); let _ = th.join(); return out; } }
@@ -84,6 +90,7 @@ pub fn run(c: &Case) -> Outcome {
         std::thread::sleep(Duration::from_millis(5));
     }
     while let Ok(b) = rx.try_recv() { got.push(b.dest_left); }
+    out.inputs_done = n_in as usize;
     out.silent = snap.unwrap_or_default();
     out.fin = got;
     // release everything: an unfinished thread is left behind on purpose (it may be spinning);
@@ -106,7 +113,8 @@ pub fn line_of(c: &Case, lens: &[usize]) -> String {
 
 fn emit_outcome(em: &mut Emitter, c: &Case, o: Outcome) {
     let line = line_of(c, &o.lens);
-    let out = if o.status == "ok" { format!("silent={} final={} exit={}", show(&o.silent), show(&o.fin), if o.exited { "yes" } else { "no" }) } else { o.status.clone() };
+    let inp = if !o.inputs_asked { "-" } else if o.inputs_done > 0 { "ok" } else { "blocked" };
+    let out = if o.status == "ok" { format!("silent={} final={} exit={} in={}", show(&o.silent), show(&o.fin), if o.exited { "yes" } else { "no" }, inp) } else { o.status.clone() };
     let mut obs = Obs::new(out).nt(o.status == "ok").tag(Box::leak(c.end.clone().into_boxed_str()));
     if o.status != "ok" { obs = obs.viol("session setup failed"); }
     em.case(&line, move || obs);
@@ -129,7 +137,7 @@ pub fn generate(thorough: bool, seed: u64, part: (usize, usize), em: &mut Emitte
     for (ei, end) in ends.iter().enumerate() {
         for fam in 0..6 {
             let n = 1 + (fam + ei) % 3;
-            let lens: Vec<usize> = (0..n).map(|_| r.range(1, 6) as usize).collect();
+            let lens: Vec<usize> = (0..n).map(|k| r.range(1, 6) as usize + 100 * ((fam + k + ei) % 3)).collect();
             let plen: Vec<usize> = lens.iter().map(|k| pdu(0, *k).len()).collect();
             let bounds: Vec<usize> = plen.iter().scan(0, |a, x| { *a += x; Some(*a) }).collect();
             let (cuts, gap): (Vec<usize>, u64) = match fam {
@@ -150,7 +158,7 @@ pub fn generate(thorough: bool, seed: u64, part: (usize, usize), em: &mut Emitte
     let n = if thorough { 600 } else { 40 };
     for _ in 0..n {
         let k = r.range(1, 4) as usize;
-        let lens: Vec<usize> = (0..k).map(|_| r.range(1, 8) as usize).collect();
+        let lens: Vec<usize> = (0..k).map(|_| r.range(1, 8) as usize + 100 * r.below(3) as usize).collect();
         let total: usize = lens.iter().map(|x| pdu(0, *x).len()).sum();
         let nc = r.below(5) as usize;
         let cuts: Vec<usize> = (0..nc).map(|_| r.range(1, total as u64 - 1) as usize).collect();
